@@ -18,7 +18,7 @@ def check(run):
     quick = run.tier == 'quick'
     run.rule = ('generated DAGs x store states (arbitrary subsets of results present - closed under dependencies or not - and arbitrary held/failed locks) x backends (file, file+pack, in-memory, redis protocol): the '
                 'table printed by the real `jug status` (all five columns per task name and the Total row) uncached and cached, and the exit status of the real check walk, compared with the Lean model and with the '
-                'property; the memoizing lock wrapper of the cached mode under every query sequence up to length 3 and random longer ones, with the base lock unchanged and changing between queries, vs Model/Memo.lean; cached mode along monotone histories of 3-5 states with an on-disk cache file; the stores `jug invalidate` leaves behind (all complete but one task and what is built on it) for the check walk; non-trivial = the state has complete, waiting and at least one locked runnable task; distinct by (program, state)')
+                'property; the memoizing lock wrapper of the cached mode under every query sequence up to length 3 and random longer ones, with the base lock unchanged and changing between queries, vs Model/Memo.lean; cached mode along monotone histories of 3-5 states with an on-disk cache file; the stores `jug invalidate` leaves behind (all complete but one task and what is built on it, the runnable ones marked failed or not) for the check walk and the tables; the one-line summary of --short (cached and uncached) on every state; non-trivial = the state has complete, waiting and at least one locked runnable task; distinct by (program, state)')
     run.assumptions = ['direct dependencies = what Task.dependencies() reports (its agreement with the results a task really reads is C03)', 'between cached calls results are only added and the jugfile is unchanged',
                        'check: stores closed under dependencies (what execute/invalidate/cleanup produce)']
     run.trusted = ['Lean 4.33.0 kernel', 'axioms propext, Classical.choice, Quot.sound', 'harness/jugverif/extract_status.py (exhaustive table of the real update_status)', 'harness/jugverif/graphcheck.py']
@@ -71,6 +71,18 @@ def check(run):
                 h2, rows2, total2, _ = G.real_status(P, be, cached=True, cache_file=cf)
                 if rows2 != exp_rows or total2 != exp_total:
                     run.fail('status-cached-wrong', '`jug status --cache` (new cache) prints %s / Total %s, uncached semantics give %s / Total %s' % (rows2, total2, exp_rows, exp_total), rp)
+                # the one-line summary (`--short`), uncached and cached: the same five numbers, folded
+                for cached_short in (False, True):
+                    _, _, sh, sh_out = G.real_status(P, be, cached=cached_short, cache_file=os.path.join(d, 'cache-short-%d.sqlite' % si), short=True)
+                    exp_sh = (exp_total[0], exp_total[1] + exp_total[2], exp_total[3], exp_total[4])
+                    if sh is None:
+                        run.count('short_lines_not_understood')
+                    else:
+                        run.count('short_lines')
+                        if sh != exp_sh:
+                            run.fail('status-short-wrong', '`jug status --short%s` on the %s store prints %r, i.e. (failed, waiting to be run, complete, active) = %s; the store state implies %s'
+                                     % (' --cache' if cached_short else '', kind, ' '.join(sh_out)[:200], sh, exp_sh), rp)
+                            break
                 # `jug graph` carries its own copy of the classifier: the counters in the dot file
                 try:
                     grows = G.real_graph_counts(P, be)
@@ -145,9 +157,23 @@ def check(run):
                             grew = True
                 be = G.GBackend(['dict', 'file'][vi % 2], d, 'inv%d' % vi)
                 present = set(range(n)) - gone
-                G.put_state(P, be, present, {})
+                # ... and (every other time) the tasks that could run next were tried under --keep-failed and failed: the end state of `execute --keep-failed --keep-going`
+                flocks = {j: 'failed' for j in gone if all(dd in present for dd in P['info'][j]['reported'])} if vi % 2 else {}
+                G.put_state(P, be, present, flocks)
                 res, lk = G.observe(P, be)
                 rc = G.real_check(P, be)
+                spec_i = [G.spec_status(P, res, lk, i) for i in range(n)]
+                e_rows_i, e_total_i = G.expected_counts(P, spec_i)
+                _, _, sh, sh_out = G.real_status(P, be, cached=False, short=True)
+                _, r_i, t_i, _ = G.real_status(P, be, cached=False)
+                rp_i = {'kind': 'status-after-invalidate', 'program': prog.text, 'invalidated': vi, 'present': sorted(present), 'locks': {str(k): v for k, v in flocks.items()}}
+                if (r_i, t_i) != (e_rows_i, e_total_i):
+                    run.fail('status-wrong', '`jug status` prints %s / %s, the store state (all complete but task #%d and what is built on it%s) implies %s / %s'
+                             % (r_i, t_i, vi, '; the runnable ones marked failed' if flocks else '', e_rows_i, e_total_i), rp_i)
+                exp_sh = (e_total_i[0], e_total_i[1] + e_total_i[2], e_total_i[3], e_total_i[4])
+                if sh is not None and sh != exp_sh:
+                    run.fail('status-short-wrong', '`jug status --short` prints %r, i.e. (failed, waiting to be run, complete, active) = %s; the store state (all complete but task #%d and what is built on it%s) implies %s'
+                             % (' '.join(sh_out)[:200], sh, vi, '; the runnable ones marked failed' if flocks else '', exp_sh), rp_i)
                 run.case(('after-invalidate', pi, vi, run.seed), nontrivial=0 < len(present) < n)
                 run.count('after_invalidate_states')
                 rp = {'kind': 'check-after-invalidate', 'program': prog.text, 'invalidated': vi, 'present': sorted(present)}
